@@ -102,10 +102,20 @@ SERVES: Dict[str, List[Tuple[str, str, dict]]] = {
             ("soundevent.audio.io", "load_audio", {"helper": True, "why": "every readable file is loaded from every offset"})],
     "C16": [(DIMS, "get_coord_index", {"valid": [mk_cmp("ge", P("value"), _rng(0)), mk_cmp("le", P("value"), _rng(1))], "quantities": [_rng(0), _rng(1)],
                                        "why": "every value inside the range of the axis has an index"}),
-            (AOPS, "set_value_at_pos", {"why": "every addressed cell can be written"})],
+            (AOPS, "set_value_at_pos", {"why": "every addressed cell can be written"}),
+            (DIMS, "create_time_range", {"valid": [("or", (("cmp", "isnot", P("step"), NONE), ("cmp", "isnot", P("samplerate"), NONE)))],
+                                         "why": "every time range with a step or a samplerate has an axis"}),
+            (DIMS, "create_frequency_range", {"why": "every frequency range has an axis"}),
+            (DIMS, "get_dim_range", {"why": "every axis has a range"})],
     "C17": [(AOPS, "crop_dim", {"valid": [mk_cmp("le", P("start"), P("stop")), mk_cmp("ge", P("start"), _rng(0)), mk_cmp("le", P("stop"), _rng(1)),
                                           mk_cmp("le", _rng(0), P("stop")), mk_cmp("le", P("start"), _rng(1)), mk_cmp("le", _rng(0), _rng(1))],
                                 "quantities": [_rng(0), _rng(1)], "why": "every request inside the current range is cropped"}),
+            (AOPS, "crop_dim_width", {"valid": [lambda s_: [mk_cmp("lt", P("width"), t_) for t_ in _compared_with(s_, P("width"))], mk_cmp("ge", P("width"), C(1))],
+                                      "enum": {P("position"): ["start", "center", "end"]}, "why": "every width below the current one is cropped to at every position"}),
+            (AOPS, "extend_dim_width", {"valid": [lambda s_: [mk_cmp("gt", P("width"), t_) for t_ in _compared_with(s_, P("width"))]],
+                                        "enum": {P("position"): ["start", "center", "end"]}, "why": "every width above the current one is extended to at every position"}),
+            (AOPS, "adjust_dim_width", {"valid": [mk_cmp("ge", P("width"), C(1))], "enum": {P("position"): ["start", "center", "end"]},
+                                        "why": "every width of at least one sample is reached"}),
             (AOPS, "extend_dim", {"valid": [mk_cmp("le", P("start"), P("stop")), mk_cmp("le", _rng(0), P("stop")), mk_cmp("le", P("start"), _rng(1)), mk_cmp("le", _rng(0), _rng(1))],
                                   "quantities": [_rng(0), _rng(1)], "why": "every request with start <= stop is extended"})],
     "C18": [("soundevent.io.aoef", "save", {"must_reach": [("writes the document", lambda t: t[1][0] == "attr" and t[1][2] in ("write_text", "write_bytes", "write"))], "why": "every collection object is saved (a recording outside the audio directory is the recording adapter's rejection)"}),
@@ -152,6 +162,20 @@ def _canon_axis(t, arrs):
     return tuple(_canon_axis(c, arrs) if isinstance(c, tuple) else c for c in t)
 
 
+def _compared_with(summ, q):
+    """the input-determined, non-constant terms the function's rejections compare the quantity q with (the current size of the axis,
+    in whichever spelling the code reads it)"""
+    out = []
+    params = set(summ.params)
+    for r in summ.raises:
+        for x in walk(r.live):
+            if x[0] == "cmp" and x[1] in ("lt", "le", "eq", "ne") and q in (x[2], x[3]):
+                o = x[3] if x[2] == q else x[2]
+                if o[0] != "const" and _input_determined(o, params, []) and o not in out:
+                    out.append(o)
+    return out
+
+
 def _input_determined(t, params, extra) -> bool:
     if t in extra:
         return True
@@ -159,7 +183,7 @@ def _input_determined(t, params, extra) -> bool:
         return t[1] in params
     if t[0] == "attr":
         return _input_determined(t[1], params, extra)
-    if t[0] == "sub" and t[2][0] == "const":
+    if t[0] == "sub" and (t[2][0] == "const" or _input_determined(t[2], params, extra)):
         return _input_determined(t[1], params, extra)
     if t[0] == "call" and t[1] == ("builtin", "len") and len(t[2]) == 1 and not t[3]:
         return _input_determined(t[2][0], params, extra)
@@ -425,7 +449,10 @@ def check_function(ctx: Ctx, rule: str, modname: str, fname: str, spec: dict) ->
     raises = [r for r in s.raises if not r.in_handler]
     # atoms that hold for valid requests; `position in <the accepted names>` is given with the list left open (None)
     valid = []
+    atoms_ = []
     for a in spec.get("valid", ()):
+        atoms_ += a(s) if callable(a) else [a]
+    for a in atoms_:
         if a[0] == "cmp" and a[3] is None:
             for r in raises:
                 for x in walk(r.live):
